@@ -53,6 +53,9 @@ struct Cfg {
     client_relation: &'static str,
     url: GenUrl,
     etag_override: Option<String>,
+    /// only ever set when every request of the case carries a cup2key for a key the server holds (otherwise the
+    /// mock is documented to panic)
+    require_cup: bool,
 }
 
 fn gen_cfg(t: &mut Tape) -> Cfg {
@@ -86,7 +89,9 @@ fn gen_cfg(t: &mut Tape) -> Cfg {
         }
         _ => (Some(vec![(ids[nk], (first + nk) % cupref::POOL)]), "client key unknown to the server"),
     };
+    let require_cup = matches!(client_relation, "client latest = server latest" | "client latest = a server historical key") && t.flag();
     Cfg {
+        require_cup,
         apps,
         kinds,
         assert_version: (0..napps).map(|_| t.flag()).collect(),
@@ -123,7 +128,7 @@ fn server_of(c: &Cfg) -> OmahaServer {
         latest: PrivateKeyAndId { id: c.server_keys[0].0, key: cupref::key(c.server_keys[0].1).clone() },
         historical: c.server_keys[1..].iter().map(|(id, k)| PrivateKeyAndId { id: *id, key: cupref::key(*k).clone() }).collect(),
     };
-    OmahaServerBuilder::default().responses_by_appid(responses.into_iter().collect::<std::collections::HashMap<_, _>>()).private_keys(keys).etag_override(c.etag_override.clone()).build().expect("server config")
+    OmahaServerBuilder::default().responses_by_appid(responses.into_iter().collect::<std::collections::HashMap<_, _>>()).private_keys(keys).etag_override(c.etag_override.clone()).require_cup(c.require_cup).build().expect("server config")
 }
 
 fn config_of(c: &Cfg) -> Config {
@@ -163,12 +168,18 @@ fn case_direct(t: &mut Tape, ctx: &CaseCtx) -> CaseResult {
     let mut c = gen_cfg(t);
     let events_only = t.chance(1, 3);
     let reconfigure = t.chance(1, 4);
+    if t.chance(1, 6) {
+        // a forced ETag: any visible-ASCII text
+        const TOK: [&str; 8] = ["00", ":", "\"", "W/", "ab", "3045", " ", "~"];
+        let n = t.choose(5);
+        c.etag_override = Some((0..n).map(|_| *t.pick(&TOK)).collect());
+    }
     if c.url.text.parse::<http::Uri>().is_err() {
         return Ok(CaseReport { key: hash_of(&c.url.text), classes: vec!["uri_rejected_by_http_crate"], ..Default::default() });
     }
     let case = json!({"apps": c.apps.iter().map(|a| a.id.clone()).collect::<Vec<_>>(), "kinds": c.kinds.iter().map(|k| format!("{:?}", KINDS[*k])).collect::<Vec<_>>(),
         "server_keys(id,pool)": c.server_keys, "client_keys": c.client_keys, "relation": c.client_relation, "service_url": c.url.text, "events_only": events_only,
-        "disable_updates": c.disable_updates, "reconfigure": reconfigure});
+        "disable_updates": c.disable_updates, "reconfigure": reconfigure, "require_cup": c.require_cup, "forced_etag": c.etag_override});
     let bad = |sig: &str, msg: String| Err(Failure::new(sig, msg, case.clone()));
     let server = Arc::new(TMutex::new(server_of(&c)));
     let config = config_of(&c);
@@ -275,7 +286,11 @@ fn case_direct(t: &mut Tape, ctx: &CaseCtx) -> CaseResult {
             (Err(e), false) => return bad("answer-rejected-by-client-parser", format!("the client's parser rejects the mock's answer: {e}; body {}", String::from_utf8_lossy(&body))),
         }
         // CUP
-        if let (Some(h), Some(meta)) = (&handler, &meta) {
+        if let Some(forced) = &c.etag_override {
+            if etag.as_deref() != Some(forced.as_bytes()) {
+                return bad("forced-etag-not-sent", format!("the server is configured to force the ETag {forced:?} but sent {:?}", etag.as_ref().map(|e| String::from_utf8_lossy(e).to_string())));
+            }
+        } else if let (Some(h), Some(meta)) = (&handler, &meta) {
             let server_has_key = c.server_keys.iter().any(|(id, _)| *id == meta.public_key_id);
             let mut b = http::Response::builder().status(200);
             if let Some(e) = &etag {
@@ -332,6 +347,12 @@ fn case_direct(t: &mut Tape, ctx: &CaseCtx) -> CaseResult {
     }
     if reconfigure {
         classes.push("reconfigured");
+    }
+    if c.require_cup {
+        classes.push("require_cup");
+    }
+    if c.etag_override.is_some() {
+        classes.push("forced_etag");
     }
     if pathy {
         classes.push("url_with_path_or_query");
@@ -390,12 +411,13 @@ fn case_end_to_end(t: &mut Tape, ctx: &CaseCtx) -> CaseResult {
         if c.client_keys.is_none() {
             c.client_keys = Some(c.server_keys.clone());
             c.client_relation = "client latest = server latest";
+            c.require_cup = t.flag();
         }
     }
     // the state machine decides its own parameters: a default policy answer => updates enabled, scheduled
     c.disable_updates = false;
     let case = json!({"apps": c.apps.iter().map(|a| a.id.clone()).collect::<Vec<_>>(), "kinds": c.kinds.iter().map(|k| format!("{:?}", KINDS[*k])).collect::<Vec<_>>(),
-        "relation": c.client_relation, "service_url": c.url.text, "outcome": (["no update", "update", "urgent update", "invalid response", "forced etag"][outcome])});
+        "relation": c.client_relation, "require_cup": c.require_cup, "service_url": c.url.text, "outcome": (["no update", "update", "urgent update", "invalid response", "forced etag"][outcome])});
     let server = Arc::new(TMutex::new(server_of(&c)));
     let mut script = Script::default();
     script.apps = c.apps.clone();
